@@ -132,7 +132,7 @@ def chain_holds(case, nu, om):
 
 # ------------------------------------------------------------------ programs
 def gen_program(rng, i):
-    kind = rng.choice(["contain2d", "contain2d", "visibility", "rh", "rh", "dist"])
+    kind = rng.choice(["contain2d", "contain2d", "visibility", "rh", "rh", "rh", "dist"])
     L = []
     meta = dict(template=kind)
     if kind == "contain2d":
@@ -171,7 +171,7 @@ def gen_program(rng, i):
         L.append(f'vf = PolygonalVectorField("Foo", [[r1.polygons, {h1} deg], [r2.polygons, {h2} deg]])')
         L.append("union = r1.union(r2)")
         L.append(f"ego = new Object in union, facing vf, with allowCollisions True, with visibleDistance {rng.choice([30, 100])}")
-        vis = rng.choice(["with requireVisible True", "visible from ego", "dist"])
+        vis = rng.choice(["with requireVisible True", "visible from ego", "dist", "dist"])
         L.append("other = new Object in union, facing vf, with allowCollisions True" + ("" if vis == "dist" else ", " + vis))
         b = rng.choice([20, 40, 60, -30, 10])
         form = rng.choice([f"(relative heading of other) >= {b} deg", f"(relative heading of other) <= {b} deg",
@@ -179,6 +179,9 @@ def gen_program(rng, i):
                            f"abs(relative heading of other) <= {abs(b)} deg",
                            f"abs((relative heading of other) - {b} deg) <= 25 deg",
                            f"(relative heading of other) != {b} deg"])
+        D = ((h2 - h1 + 180) % 360) - 180      # relative heading of a cell-2 object seen from a cell-1 ego
+        if abs(D) >= 40 and rng.random() < 0.5:   # only cross-cell placements satisfy it
+            form = f"abs((relative heading of other) - {D} deg) <= 20 deg"
         L.append("require " + form)
         if vis == "dist":
             L.append(f"require (distance to other) <= {rng.choice([25, 35])}")
